@@ -31,17 +31,24 @@ class Universe:
         return self.paths[slot].rsplit("/", 1)[1][:-3]
 
 
+# The layout universe lives below a REAL directory skeleton (the files themselves stay virtual: the replayer hands their
+# texts to analyze_file): resolving a dotted relative import such as `..s.conftest` needs the intermediate directories to
+# exist (imports.rs find_module_file: `is_dir()`), the last component is found through file_cache.
+import os as _os
+VWS = _os.path.join(_os.path.dirname(_os.path.dirname(_os.path.abspath(__file__))), ".build", "vws")
 LAYOUT_UNIVERSE = Universe({
-    "c0": "/vws/R/conftest.py", "c1": "/vws/R/sa/conftest.py", "c2": "/vws/R/sa/b/conftest.py",
-    "cs": "/vws/R/s/conftest.py", "u": "/vws/R/sa/b/test_u.py", "o": "/vws/R/sa/b/test_o.py",
-    "m": "/vws/R/sa/b/mod_m.py", "h0": "/vws/R/helper0.py", "h1": "/vws/R/sa/helper1.py",
-    "h2": "/vws/R/sa/b/helper2.py", "hh": "/vws/R/sa/helperh.py",
-    "t0": "/vws/R/test_t0.py", "t1": "/vws/R/sa/test_t1.py",
-    "pl": "/vws/plugsrc/plug.py",
-    "tp": "/vws/venv/lib/python3.11/site-packages/tp/plugin.py",
-    "tp2": "/vws/venv/lib/python3.11/site-packages/tp2/plugin.py",
-    "tpi": "/vws/R/.venv/lib/python3.11/site-packages/tpi/plugin.py",
+    "c0": VWS + "/R/conftest.py", "c1": VWS + "/R/sa/conftest.py", "c2": VWS + "/R/sa/b/conftest.py",
+    "cs": VWS + "/R/s/conftest.py", "u": VWS + "/R/sa/b/test_u.py", "o": VWS + "/R/sa/b/test_o.py",
+    "m": VWS + "/R/sa/b/mod_m.py", "h0": VWS + "/R/helper0.py", "h1": VWS + "/R/sa/helper1.py",
+    "h2": VWS + "/R/sa/b/helper2.py", "hh": VWS + "/R/sa/helperh.py",
+    "t0": VWS + "/R/test_t0.py", "t1": VWS + "/R/sa/test_t1.py",
+    "pl": VWS + "/plugsrc/plug.py",
+    "tp": VWS + "/venv/lib/python3.11/site-packages/tp/plugin.py",
+    "tp2": VWS + "/venv/lib/python3.11/site-packages/tp2/plugin.py",
+    "tpi": VWS + "/R/.venv/lib/python3.11/site-packages/tpi/plugin.py",
 })
+for _p in LAYOUT_UNIVERSE.paths.values():
+    _os.makedirs(_os.path.dirname(_p), exist_ok=True)
 
 
 def spelled(uni, slot, mod, code):
